@@ -56,7 +56,10 @@ func Strfmt(ctx *runtime.Task, funcExpr *ast.CallExpr) *errchain.PlError {
 	}
 
 	for i := 2; i < len(funcExpr.Param); i++ {
-		v, _, _ := runtime.RunStmt(ctx, funcExpr.Param[i])
+		v, _, err := runtime.RunStmt(ctx, funcExpr.Param[i])
+		if err != nil {
+			return err
+		}
 		outdata = append(outdata, v)
 	}
 
